@@ -126,7 +126,12 @@ class Engine(object):
     def build_error_response(I, args, kw):
         self, version, reason, message = args[0], args[1], args[2], args[3]
         I.path.event('engine.error_response', reason, id(version))
-        return Obj(Response, {'kind': 'error', 'reason': reason, 'message': message}, 'error-response')
+        r = Obj(Response, {'kind': 'error', 'reason': reason, 'message': message}, 'error-response')
+        if isinstance(version, Opaque) and 'partial' in version.facts:
+            # precondition of build_error_response: a completely decoded protocol version
+            r.fields['bad_version'] = True
+            I.path.event('engine.error_response.partial_version')
+        return r
 
 
 class Response(object):
@@ -137,7 +142,11 @@ class Response(object):
     def write(I, args, kw):
         self, stream = args[0], args[1]
         P = I.path
-        P.session.assumptions.add("ResponseMessage.write does not raise for responses built by the engine")
+        if self.fields.get('bad_version'):
+            # a header carrying a half-decoded protocol version cannot be encoded
+            raise _pyvc().Raised(ExcVal(ValueError, ("Invalid struct missing the protocol version number",)))
+        P.session.assumptions.add("ResponseMessage.write does not raise for responses built by the engine "
+                                  "from a completely decoded protocol version")
         t = fresh("encoding", IntSeq)
         P.assume(z3.Length(t) >= 8)
         if self.fields.get('kind') == 'error':
